@@ -267,7 +267,7 @@ func cmdCheck(args []string) int {
 			reports = append(reports, &FuncReport{Fn: fc.Key, Pkg: fc.Pkg, Aborted: "function not found in " + fc.Pkg, fc: fc})
 			continue
 		}
-		if fc.Trusted {
+		if fc.Trusted && !hasProp(strings.Fields(fc.Opts["bodyfor"]), id) {
 			reports = append(reports, &FuncReport{Fn: fc.Key, Pkg: fc.Pkg, fc: fc, fnObj: fn})
 			continue
 		}
